@@ -141,5 +141,6 @@ class SocketSpawn(SpawnBase):
                     self.flag_eof = True
                     raise EOF("Socket closed")
                 return s
-        except socket.timeout:
+        except (socket.timeout, BlockingIOError):
+            # BlockingIOError: timeout 0 and nothing to read right now
             raise TIMEOUT("Timeout exceeded.")
